@@ -215,8 +215,10 @@ def analyse(ctx, want_prefix: str):
             if not good and len(p.appended) == 0 and isinstance(p.advance, Lin) and p.advance == Lin(1) and p.signal in (None, ("continue",)) and \
                     any(_sibling_equation(c, t) == (-1, Lin(consts.WORLD)) for c, t in p.conds):
                 good = True     # a repeat of the entry handled just before
-            ob("C08.5", f"{Q}: a world-cell entry is copied through", core.DISCHARGED if good else core.VIOLATED, core.loc(COMPACT, st.inner),
-               f"appended {p.appended}, index advance {p.advance}")
+            lost_w = any(c.left.has_opaque(True) or c.right.has_opaque(True) for c, _t in p.conds) or \
+                any(not isinstance(x, Lin) for x in p.appended) or not isinstance(p.advance, Lin)
+            ob("C08.5", f"{Q}: a world-cell entry is copied through", core.DISCHARGED if good else (core.UNDECIDED if lost_w else core.VIOLATED),
+               core.loc(COMPACT, st.inner), f"appended {p.appended}, index advance {p.advance}" + (" (on a path the analysis does not model)" if lost_w and not good else ""))
         carried = carried_variables(st)
         ctx.analysed["loop_carried_variables"] = carried
         for r in range(0, MAX + 1):
